@@ -368,6 +368,10 @@ func (g *Graph) Path(q Search) []*Node {
 						continue // infeasible
 					}
 				} else if q.Track || isAssumedKey(q.Assume, key) {
+					// x == K1 and x == K2 cannot both hold for distinct constants K1, K2
+					if want && g.eqContradicts(val, key) {
+						continue // infeasible
+					}
 					val[key] = want
 				}
 			}
@@ -393,6 +397,51 @@ func (g *Graph) Path(q Search) []*Node {
 }
 
 func isAssumedKey(m map[string]bool, k string) bool { _, ok := m[k]; return ok }
+
+// eqContradicts: key is "X == K" with K a constant, and val already holds "X == K'" as true for another constant K'.
+func (g *Graph) eqContradicts(val map[string]bool, key string) bool {
+	i := strings.Index(key, " == ")
+	if i < 0 {
+		return false
+	}
+	lhs, rhs := key[:i], key[i+4:]
+	kv, ok := g.constText(rhs)
+	if !ok {
+		return false
+	}
+	for k, v := range val {
+		if !v || k == key || !strings.HasPrefix(k, lhs+" == ") {
+			continue
+		}
+		if ov, ok := g.constText(k[len(lhs)+4:]); ok && ov != kv {
+			return true
+		}
+	}
+	return false
+}
+
+// constText: the exact value of the constant expression with the given source text, looked up among the condition
+// operands of the graph (cached).
+func (g *Graph) constText(text string) (string, bool) {
+	if g.consts == nil {
+		g.consts = map[string]string{}
+		for _, n := range g.Nodes {
+			if n.Kind != KCond || n.Expr == nil || g.Info == nil {
+				continue
+			}
+			ast.Inspect(n.Expr, func(x ast.Node) bool {
+				if e, ok := x.(ast.Expr); ok {
+					if tv, ok := g.Info.Types[e]; ok && tv.Value != nil {
+						g.consts[types.ExprString(e)] = tv.Value.ExactString()
+					}
+				}
+				return true
+			})
+		}
+	}
+	v, ok := g.consts[text]
+	return v, ok
+}
 
 func encodeVal(v map[string]bool) string {
 	if len(v) == 0 {
